@@ -36,7 +36,7 @@ def okb(case, io, mo):
 
 def run(chk, replay=None):
     gens = gen_sources()
-    proof = proof_check_streams(PID, "C16Slots", extra=("C16Signatures", "C09Streams"))
+    proof = proof_check_streams(PID, "C16Slots", extra=("C16Signatures", "C09Streams", "C08Devices"))
     drv = build_driver(); exe = build_harness("devices"); cfg = harness_config(exe)
     if replay:
         r = json.load(open(replay))
